@@ -69,5 +69,6 @@ IdenticalIsSilent == new = BaseProg => SpecDiag(BaseProg, new) = {}
 \* Role B: a deterministic sample of the (old, new) pairs as cases
 Ser(P) == [ f \in DOMAIN P |-> [ structs |-> P[f].structs, services |-> [ s \in DOMAIN P[f].services |-> SetToSeq(P[f].services[s]) ] ] ]
 Hash == Cardinality(SpecDiag(BaseProg, new)) * 7 + nedits * 3 + Cardinality(DOMAIN new)
-EmitCase == ((TLCGet("distinct") + Hash) % EmitMod = EmitPick) => PrintT(<<"CASE", ToJson([old |-> Ser(BaseProg), new |-> Ser(new)])>>)
+\* every program pair with two or more diagnostics (where reports can interact) and a sample of the others
+EmitCase == (Cardinality(SpecDiag(BaseProg, new)) >= 2 \/ (TLCGet("distinct") + Hash) % EmitMod = EmitPick) => PrintT(<<"CASE", ToJson([old |-> Ser(BaseProg), new |-> Ser(new)])>>)
 =============================================================================
